@@ -31,7 +31,10 @@ namespace Dulwich.Lock
 
 /-- what the translator extracts from `_GitFile.__init__/close/abort` -/
 structure Program where
-  openExcl : Bool                     -- `os.open(lock, … O_CREAT | O_EXCL …)`
+  opens : List Bool                   -- EVERY `os.open(lock, …)` of `__init__` in source order: does it carry
+                                      --   O_CREAT|O_EXCL.  The first is the normal open; each further one is a
+                                      --   retry after the previous failed with ENOENT (parent directory missing)
+                                      --   and the directory was re-created.
   guardClose : Bool                   -- close(): `if self._closed: return`
   closePre : List (PreCall × Bool)    -- close(): calls before the rename, in source order;
                                       --   flag = inside the `try … finally: self.abort()`
@@ -47,10 +50,11 @@ def hasFclose (l : List (PreCall × Bool)) : Bool := l.any (fun p => p.1 == .fcl
 
 /-- THE CHECKER (proved sound in Props/C07.lean, `check_sound`): decidable well-behavedness of a
 `_GitFile` program — exclusive create, both `_closed` guards, `_closed = True` right after the
-rename, abort() unlinks, the file object is closed before the rename. -/
+rename, abort() unlinks, the file object is closed before the rename; EVERY open of the lock file
+(retry paths included) is exclusive. -/
 def Program.wellBehaved (P : Program) : Bool :=
-  P.openExcl && P.guardClose && P.markClosedOnReplace && P.guardAbort && P.abortRemoves
-    && hasFclose P.closePre
+  !P.opens.isEmpty && P.opens.all id && P.guardClose && P.markClosedOnReplace && P.guardAbort
+    && P.abortRemoves && hasFclose P.closePre
 
 /-- "every failure inside close() is followed by abort()": the rename and all calls before it sit
 inside the `try … finally: self.abort()` (premise of `close_failure_releases_lock`) -/
@@ -59,7 +63,7 @@ def Program.abortsOnAnyCloseFailure (P : Program) : Bool :=
 
 /-- the program as the source says it is NOW -/
 def gitFile : Program :=
-  { openExcl := Gen.Lock.openCreat && Gen.Lock.openExcl
+  { opens := Gen.Lock.opens
     guardClose := Gen.Lock.guardClose
     closePre := Gen.Lock.closePre
     finallyAbort := Gen.Lock.finallyAbort
@@ -91,9 +95,17 @@ inductive Op where
   | abort
   deriving DecidableEq, Repr
 
+/-- where the acquisition of the lock stands (only meaningful while `pc = start`) -/
+inductive Acq where
+  | init                                       -- nothing done yet
+  | mkdir (opens : List Bool)                  -- about to `ensure_dir_exists(parent)`, then these opens
+  | open (excl : Bool) (retries : List Bool)   -- about to `os.open(f.lock, …)` with / without O_EXCL
+  | rmdir                                      -- not a writer at all: about to `os.rmdir(parent)` (a pruner)
+  deriving DecidableEq, Repr
+
 /-- where an actor is: the system call it will issue next -/
 inductive Pc where
-  | start                                                  -- `os.open(f.lock, O_CREAT|O_EXCL)`
+  | start                                                  -- acquiring: see `Actor.acq`
   | wr (d : Bytes)                                         -- `self._file.write(d)`
   | pre (c : PreCall) (inTry : Bool) (rest : List (PreCall × Bool))  -- in close(), before the rename
   | replace                                                -- in close(): `os.replace(lock, f)`
@@ -110,7 +122,9 @@ structure Actor where
   permOn : Bool           -- GitFile(..., shared_perm=…) with a mode change to apply
   hW : List Op            -- caller's handler when write() raises
   hC : List Op            -- caller's handler when close() raises
+  mkdirFirst : Bool := false  -- the caller does `ensure_dir_exists(dirname)` before `GitFile(...)`
   -- control
+  acq : Acq := .init
   pc : Pc
   todo : List Op          -- API calls still to make after the current one
   inHandler : Bool
@@ -130,6 +144,23 @@ def Actor.init (fsyncOn permOn : Bool) (body hW hC : List Op) : Actor :=
   { fsyncOn, permOn, hW, hC, pc := .start, todo := body, inHandler := false,
     opened := false, fopen := false, closed := false,
     owns := false, written := [], committed := none, rmFailed := false, fcFailed := false }
+
+/-- not a writer: one `os.rmdir(parent)` with errors suppressed — what `remove_if_equals` does to
+the directories above a deleted ref, WITHOUT holding any lock -/
+def Actor.pruner : Actor := { Actor.init false false [] [] [] with acq := .rmdir }
+
+/-- what an initial actor looks like: nothing done, no handle, any caller script / configuration -/
+def Actor.Fresh (a : Actor) : Prop :=
+  a.pc = .start ∧ a.opened = false ∧ a.owns = false ∧ a.closed = false ∧ a.fopen = false ∧
+    a.committed = none ∧ a.fcFailed = false ∧ (a.acq = .init ∨ a.acq = .rmdir)
+
+/-- the acquisition state with `init` resolved: the caller's own `ensure_dir_exists`, or straight
+to the first open -/
+def Actor.acqNow (P : Program) (a : Actor) : Acq :=
+  match a.acq with
+  | .init => if a.mkdirFirst then .mkdir P.opens
+             else (match P.opens with | [] => .mkdir [] | e :: r => .open e r)
+  | x => x
 
 /-- Walk through the calls of close() that precede the rename until one that is a system call for
 this handle: `fsync` is skipped without `fsync=True`, `stat`/`chmod` without `shared_perm`,
@@ -188,33 +219,63 @@ def preFail (P : Program) (a : Actor) (inTry : Bool) : Actor :=
 
 /-- effect of a transition on the directory -/
 inductive Eff where
-  | none | create | replace | remove
+  | none | create | replace | remove | mkdir | rmdir
   deriving DecidableEq, Repr
 
 /-- what the system call returned -/
 inductive Out where
   | ok | exists | noent | injected | valueError | skip
+  | noentRetry     -- the open failed with ENOENT and `__init__` goes on to re-create the directory and retry
+  | notEmpty       -- rmdir: ENOTEMPTY / ENOENT (suppressed by the pruner)
   deriving DecidableEq, Repr
 
 def Out.name : Out → String
   | .ok => "ok" | .exists => "FileExistsError" | .noent => "FileNotFoundError"
   | .injected => "inject" | .valueError => "ValueError" | .skip => "skip"
+  | .noentRetry => "FileNotFoundError" | .notEmpty => "OSError"
 
-/-- name of the system call an actor at `pc` issues (for the correspondence) -/
+def Acq.call : Acq → String
+  | .init => "?" | .mkdir _ => "mkdir" | .open true _ => "open-x" | .open false _ => "open-w" | .rmdir => "rmdir"
+
+/-- name of the system call an actor at `pc` issues (for the correspondence; for `start` see `Acq.call`) -/
 def Pc.call : Pc → String
   | .start => "open-x" | .wr _ => "write" | .pre c _ _ => c.name | .replace => "replace"
   | .rmClose _ => "remove" | .rmAbort => "remove" | .fcClose _ => "fclose" | .fcAbort => "fclose"
   | .done => "-"
 
-/-- One system call of one actor.  `lockThere`: does `f.lock` exist right now.  `fault`: the call
-raises an injected error instead of executing. -/
-def actorStep (P : Program) (a : Actor) (lockThere fault : Bool) : Actor × Eff × Out :=
+/-- The acquisition (`pc = start`): the caller's `ensure_dir_exists`, the open(s) of `__init__` with
+the retry after ENOENT, or — for a pruner — the rmdir. -/
+def acquireStep (P : Program) (a : Actor) (lockThere dirThere dirEmpty fault : Bool) :
+    Actor × Eff × Out :=
+  match a.acqNow P with
+  | .init => ({ a with pc := .done, todo := [] }, .none, .skip)     -- (unreachable: `acqNow` resolves it)
+  | .rmdir =>
+    if fault then ({ a with pc := .done, todo := [] }, .none, .injected)
+    else if dirThere && dirEmpty then ({ a with pc := .done, todo := [] }, .rmdir, .ok)
+    else ({ a with pc := .done, todo := [] }, .none, .notEmpty)
+  | .mkdir opens =>
+    if fault then ({ a with pc := .done, todo := [] }, .none, .injected)
+    else match opens with
+      | [] => ({ a with pc := .done, todo := [] }, .mkdir, .ok)          -- (no open at all: nothing to model)
+      | e :: r => ({ a with acq := .open e r }, .mkdir, .ok)
+  | .open excl retries =>
+    if fault then ({ a with pc := .done, todo := [] }, .none, .injected)
+    else if !dirThere then
+      -- ENOENT: the parent directory is missing
+      (match retries with
+       | [] => ({ a with pc := .done, todo := [] }, .none, .noent)        -- FileNotFoundError reaches the caller
+       | _ :: _ => ({ a with acq := .mkdir retries }, .none, .noentRetry))  -- re-create the directory, retry
+    else if excl && lockThere then ({ a with pc := .done, todo := [] }, .none, .exists)
+    else (settle P { a with opened := true, fopen := true, owns := true } a.todo, .create, .ok)
+
+/-- One system call of one actor.  `lockThere`: does `f.lock` exist right now; `dirThere`: does the
+parent directory; `dirEmpty`: is it empty.  `fault`: the call raises an injected error instead of
+executing. -/
+def actorStep (P : Program) (a : Actor) (lockThere dirThere dirEmpty fault : Bool) :
+    Actor × Eff × Out :=
   match a.pc with
   | .done => (a, .none, .skip)
-  | .start =>
-    if fault then ({ a with pc := .done, todo := [] }, .none, .injected)
-    else if P.openExcl && lockThere then ({ a with pc := .done, todo := [] }, .none, .exists)
-    else (settle P { a with opened := true, fopen := true, owns := true } a.todo, .create, .ok)
+  | .start => acquireStep P a lockThere dirThere dirEmpty fault
   | .wr d =>
     if fault then (raise P a a.hW, .none, .injected)
     else if !a.fopen then (raise P a a.hW, .none, .valueError)
@@ -272,15 +333,23 @@ def applyEff (fs : FS) (i : Nat) : Eff → FS
   | .create => { fs with lock := some i }
   | .replace => (fs.replace).getD fs
   | .remove => (fs.remove).getD fs
+  | .mkdir => fs.mkdir
+  | .rmdir => (fs.rmdir).getD fs
 
 /-- one transition of the whole system: actor `i` performs its pending system call -/
 def step (P : Program) (s : State) (i : Nat) (fault : Bool) : State :=
-  let r := actorStep P (s.actors i) s.fs.lock.isSome fault
+  let r := actorStep P (s.actors i) s.fs.lock.isSome s.fs.dir s.fs.isEmpty fault
   { fs := applyEff s.fs i r.2.1
     actors := fun j => if j = i then r.1 else s.actors j }
 
 def stepOut (P : Program) (s : State) (i : Nat) (fault : Bool) : Out :=
-  (actorStep P (s.actors i) s.fs.lock.isSome fault).2.2
+  (actorStep P (s.actors i) s.fs.lock.isSome s.fs.dir s.fs.isEmpty fault).2.2
+
+/-- name of the call actor `i` is about to make (for the correspondence) -/
+def stepCall (P : Program) (s : State) (i : Nat) : String :=
+  match (s.actors i).pc with
+  | .start => ((s.actors i).acqNow P).call
+  | pc => pc.call
 
 /-- a schedule: which actor moves, and whether its call is made to fail -/
 abbrev Sched := List (Nat × Bool)
@@ -296,8 +365,8 @@ inductive Reach (P : Program) (s0 : State) : State → Prop where
 
 /-- a state with finitely many configured actors (all others idle callers that never get scheduled
 in the examples); `tgt` = is there an initial file at `f` -/
-def State.ofList (tgt : Bool) (as : List Actor) : State :=
-  { fs := { target := if tgt then some .init else none, lock := none }
+def State.ofList (tgt : Bool) (as : List Actor) (dir : Bool := true) : State :=
+  { fs := { target := if tgt then some .init else none, lock := none, dir := dir }
     actors := fun j => as.getD j (Actor.init false false [] [] []) }
 
 /-- content of `f` (what a reader gets), given the content of the initial file -/
@@ -311,7 +380,7 @@ def content (s : State) (init : Bytes) : Option Bytes :=
 structure Initial (s : State) : Prop where
   lockFree : s.fs.lock = none
   targetInit : s.fs.target = none ∨ s.fs.target = some .init
-  fresh : ∀ i, ∃ fs pm body hW hC, s.actors i = Actor.init fs pm body hW hC
+  fresh : ∀ i, (s.actors i).Fresh
 
 /-! ### the `with GitFile(...)` caller -/
 
@@ -319,10 +388,10 @@ def withBody (ds : List Bytes) : List Op := ds.map .write ++ [.close]
 
 /-- `with GitFile(f,"wb") as h: for d in ds: h.write(d)`; `finalised` = the handle is dropped
 after an exception escaped from close() (CPython then runs `__del__`, which calls abort()). -/
-def withCaller (fsyncOn permOn : Bool) (ds : List Bytes) (finalised : Bool) : Actor :=
-  Actor.init fsyncOn permOn (withBody ds)
-    (if Gen.Lock.exitAbortsOnException then [.abort] else [.close])
-    (if finalised && Gen.Lock.delAborts then [.abort] else [])
+def withCaller (mk fsyncOn permOn : Bool) (ds : List Bytes) (finalised : Bool) : Actor :=
+  { Actor.init fsyncOn permOn (withBody ds)
+      (if Gen.Lock.exitAbortsOnException then [.abort] else [.close])
+      (if finalised && Gen.Lock.delAborts then [.abort] else []) with mkdirFirst := mk }
 
 /-- `Index.write` before commit 3b15974: `except: f.close(); raise` -/
 def indexWriteCaller (fsyncOn permOn : Bool) (ds : List Bytes) : Actor :=
